@@ -59,9 +59,25 @@ func (fr *frame) get(key ssa.Value) value {
 }
 
 // globalAddr returns the cell of a package-level variable, initialising its package lazily.
+// linknamed package variables (//go:linkname local target): the local name aliases the target's storage.
+var linknameVars = map[string][2]string{
+	"github.com/saucelabs/forwarder/internal/martian.h2ErrClosedBody": {"golang.org/x/net/http2", "errClosedBody"},
+}
+
 func (in *Exec) globalAddr(g *ssa.Global) *value {
 	if c, ok := in.globals[g]; ok {
 		return c
+	}
+	if g.Pkg != nil {
+		if tgt, ok := linknameVars[g.Pkg.Pkg.Path()+"."+g.Name()]; ok {
+			if p := in.W.X.Prog.ImportedPackage(tgt[0]); p != nil {
+				if tg, ok := p.Members[tgt[1]].(*ssa.Global); ok {
+					c := in.globalAddr(tg)
+					in.globals[g] = c
+					return c
+				}
+			}
+		}
 	}
 	if g.Pkg != nil {
 		in.ensureInit(g.Pkg)
